@@ -512,7 +512,7 @@ static void setup(void) {
   ref_selftest();
   ta_install();
   if (!ta_selftest()) vh_die("track allocator self-test failed");
-  if (!strcmp(O.stage, "bigcount") || !strcmp(O.stage, "bigleaf")) CAP = (size_t)1 << 30; /* tables of tens of MiB are granted: "memory permitting" holds */
+  if (!strcmp(O.stage, "bigcount") || !strcmp(O.stage, "bigleaf") || !strcmp(O.stage, "lateerr")) CAP = (size_t)1 << 30; /* tables of tens of MiB are granted: "memory permitting" holds */
   ta_set_cap(CAP);
   devnull = fopen("/dev/null", "w");
   if (!devnull) vh_die("cannot open /dev/null");
@@ -982,6 +982,42 @@ static void stage_bigleaf(void) {
   vb_free(&x);
 }
 
+/* ---- stage: lateerr — something that is not a chunk, opened inside a chunked string, complete, followed by a tail ----
+ * The one place where C05 admits two answers (§6.1): the eager one at the offending head, the lazy one when the item
+ * completes or the input ends. Which later bytes are consumed before the verdict depends on the nested item being
+ * counted down correctly, so the nested item comes in every flavour and with member counts from 0 to 70 000. */
+static void stage_lateerr(void) {
+  static const size_t cnt[] = {0, 1, 2, 3, 23, 24, 255, 256, 1000, 4095, 4096, 4097, 5000, 8191, 8192, 8193, 10000, 16384, 16385, 32768, 65535, 65536, 65537, 70000};
+  static const char* const tails[] = {"", "ff", "1c", "41004100", "4100ff", "00ff", "ffff", "6100ff", "f8", "18"};
+  struct vh_buf b = {0};
+  int unit = 0;
+  for (int outer = 0; outer < 2; outer++)
+    for (int kind = 0; kind < 7; kind++)
+      for (size_t ci = 0; ci < sizeof cnt / sizeof cnt[0]; ci++)
+        for (size_t t = 0; t < sizeof tails / sizeof tails[0]; t++, unit++) {
+          if (unit % O.nshards != O.shard) continue;
+          size_t c = cnt[ci];
+          if (kind == 6 && ci > 2) continue;
+          vb_reset(&b);
+          vb_u8(&b, outer ? 0x7f : 0x5f);
+          vb_u8(&b, outer ? 0x61 : 0x41); vb_u8(&b, 'k'); /* one proper chunk first */
+          switch (kind) {
+            case 0: case 2: { unsigned mt = kind == 0 ? 4 : 5; if (c < 24) vb_u8(&b, (uint8_t)(mt << 5 | c)); else if (c < 256) { vb_u8(&b, (uint8_t)(mt << 5 | 24)); vb_u8(&b, (uint8_t)c); } else if (c < 65536) { vb_u8(&b, (uint8_t)(mt << 5 | 25)); vb_be(&b, c, 2); } else { vb_u8(&b, (uint8_t)(mt << 5 | 26)); vb_be(&b, c, 4); }
+                              for (size_t i = 0; i < c * (kind == 0 ? 1 : 2); i++) vb_u8(&b, (uint8_t)(i % 24)); break; }
+            case 1: case 3: vb_u8(&b, kind == 1 ? 0x9f : 0xbf); for (size_t i = 0; i < c * (kind == 1 ? 1 : 2); i++) vb_u8(&b, (uint8_t)(i % 24)); vb_u8(&b, 0xff); break;
+            case 4: for (size_t i = 0; i < (c > 2000 ? 2000 : c) + 1; i++) vb_u8(&b, 0xc1); vb_u8(&b, 0x00); break; /* a chain of tags around an integer */
+            case 5: vb_u8(&b, outer ? 0x5f : 0x7f); for (size_t i = 0; i < c; i++) { vb_u8(&b, outer ? 0x41 : 0x61); vb_u8(&b, 'x'); } vb_u8(&b, 0xff); break; /* a chunked string of the other kind */
+            default: vb_u8(&b, c == 0 ? 0x00 : c == 1 ? 0xf6 : 0xfa); if (c >= 2) vb_be(&b, 0x3fc00000u, 4); break; /* a scalar */
+          }
+          for (const char* h = tails[t]; *h; h += 2) { unsigned v; sscanf(h, "%2x", &v); vb_u8(&b, (uint8_t)v); }
+          run_input(b.p, b.n);
+          /* and cut just before the nested item completes */
+          if (t == 0 && b.n > 6) run_input(b.p, b.n - 1);
+          VH_COUNT("lateerr.inputs", 1);
+        }
+  vb_free(&b);
+}
+
 static void load_run(void) {
   setup();
   size_t bytesN = O.thorough ? 4 : 3;
@@ -997,6 +1033,7 @@ static void load_run(void) {
   else if (!strcmp(st, "bigcount")) stage_bigcount();
   else if (!strcmp(st, "gianterr")) stage_gianterr();
   else if (!strcmp(st, "bigleaf")) stage_bigleaf();
+  else if (!strcmp(st, "lateerr")) stage_lateerr();
   else vh_die("driver load: unknown stage '%s'", st);
   if (P == 1) vh_set_rule("every enumerated/generated input is run through load, describe, size, serialize, serialize_alloc, copy, release and two streaming passes under ASan+UBSan with CBOR_ASSERT armed; non-trivial = the decoder got past the first head (an item was built, or the failure is a hard error / truncation after at least one complete head); distinct by construction in the exhaustive sweep, by 64-bit hash elsewhere (inputs short enough to be in the sweep are not counted again)");
   else if (P == 2) vh_set_rule("each input is decoded by cbor_load and by the independent RFC 8949 reference decoder; non-trivial = at least one side accepts (tree, read and ownership are then compared); distinct by construction in the exhaustive sweep, by hash elsewhere");
